@@ -243,7 +243,11 @@ func evalEnvPipe(d vEnvPipe) (string, string) {
 	for i := range vePool {
 		q = append(q, fmt.Sprint(i))
 	}
-	cl := fmt.Sprintf("vars.envpipe %s %s %s %d %s %s %s %d %s %s %s %d %s", b2s(d.Prec), hx(d.WorkDir), vePartsTok(d.Dir), len(d.Os), strings.Join(osTok, " "),
+	home := os.Getenv("HOME")
+	if d.Prec {
+		home = filepath.Join(d.WorkDir, "home")
+	}
+	cl := fmt.Sprintf("vars.envpipe %s %s %s %s %d %s %s %s %d %s %s %s %d %s", b2s(d.Prec), hx(home), hx(d.WorkDir), vePartsTok(d.Dir), len(d.Os), strings.Join(osTok, " "),
 		veBlock(d.Genv), veBlock(d.Gvars), len(d.Dotenv), strings.Join(dot, " "), veBlock(d.Tenv), veBlock(d.Tvars), len(q), strings.Join(q, " "))
 	cl = strings.Join(strings.Fields(cl), " ")
 	if d.Prec {
